@@ -94,7 +94,7 @@ pub fn run(seed: u64, n: usize, out: &mut Out, tier: &str) {
             };
             // requests with unsupported schemes are never matched (engine level)
             let e = adblock::Engine::from_rules_parametrised(&[line.clone()], Default::default(), true, true);
-            for (u, ty) in [("ftp://a.com/x", "script"), ("data:text/plain,x", "image"), ("chrome-extension://a.com/x", "websocket"), ("file:///a.com/x", "document")] {
+            for (u, ty) in [("ftp://a.com/x", "script"), ("ftp://a.com/x", "websocket"), ("data:text/plain,x", "image"), ("chrome-extension://a.com/x", "websocket"), ("file:///a.com/x", "document"), ("FTP://a.com/x", "websocket"), ("gopher://a.com/x", "xhr")] {
                 if let Ok(q) = adblock::request::Request::new(u, "https://a.com/", ty) {
                     let v = e.check_network_request(&q);
                     if v.matched || v.exception.is_some() || v.redirect.is_some() || v.rewritten_url.is_some() {
@@ -105,6 +105,21 @@ pub fn run(seed: u64, n: usize, out: &mut Out, tier: &str) {
             }
             let mut pr = PRule { line: line.clone(), f: Box::new(f), rm: Default::default() };
             let imp: String = reqs.iter().map(|q| if pr.matches(&q.req) { '1' } else { '0' }).collect();
+            // the spelling of the scheme (`HTTPS://`, `Ws://`) is not an option: the rule applies to the
+            // request exactly as it applies to the lower-case spelling, per rule and through the engine
+            for q in reqs.iter().step_by(7) {
+                let i = match q.url.find("://") { Some(i) => i, None => continue };
+                let twin_url = format!("{}{}", q.url[..i].to_uppercase(), &q.url[i..]);
+                if let (Ok(t), Ok(o)) = (adblock::request::Request::new(&twin_url, &q.src, &q.ty), adblock::request::Request::new(&q.url, &q.src, &q.ty)) {
+                    let (a, b) = (pr.matches(&t), pr.matches(&o));
+                    let (va, vb) = (e.check_network_request(&t), e.check_network_request(&o));
+                    if a != b || va.matched != vb.matched || va.exception.is_some() != vb.exception.is_some() {
+                        out.fail("scheme-spelling-changes-the-answer", None, json!({"rule": line, "url": twin_url, "lower_case_url": q.url, "source": q.src, "type": q.ty,
+                            "rule_applies": a, "rule_applies_lower": b, "engine_matched": va.matched, "engine_matched_lower": vb.matched}));
+                    }
+                    out.bump("scheme_spelling_probes");
+                }
+            }
             let hits = imp.matches('1').count();
             out.add("rule_request_pairs", reqs.len() as u64);
             out.add("pairs_applying", hits as u64);
